@@ -148,7 +148,18 @@ func (s *Session) AwaitMark(mc *rig.MemConn, n int64) bool {
 			}
 		case <-t.C:
 			if time.Now().After(deadline) || rig.ProveDead(rig.DeadInterval).Dead {
-				return false
+				// the marker may have arrived just before everything went quiet: look once more
+				for {
+					select {
+					case got := <-s.markCh:
+						if got == n {
+							return true
+						}
+						continue
+					default:
+					}
+					return false
+				}
 			}
 		}
 	}
@@ -179,9 +190,15 @@ func waitCh(ch <-chan struct{}) bool {
 			t.Stop()
 			return true
 		case <-t.C:
-			// a proven dead state ends the wait at once: nothing can ever wake it
+			// a proven dead state ends the wait at once: nothing can ever wake it — unless what is awaited
+			// happened just before everything went quiet (timer and channel both ready): look once more
 			if time.Now().After(deadline) || rig.ProveDead(rig.DeadInterval).Dead {
-				return false
+				select {
+				case <-ch:
+					return true
+				default:
+					return false
+				}
 			}
 		}
 	}
